@@ -193,16 +193,16 @@ def finding_keys(trace):
     return ["union=%s|leaf=%s" % (u.replace(" ", ""), p) for u, p in trace]
 
 
-def run_stream(chk, cases, tag):
+def run_stream(chk, cases, tag, model=True):
     """model/real correspondence + oracle verdicts + traces for failing cases. Returns (verdict codes, real results, failures)
     where failures = list of dict(case, props=[(prop, detail)], keys=[finding keys])."""
-    verdict, real = CS.run_cases(cases, tag)
+    verdict, real = CS.run_cases(cases, tag, model=model)
     failing = []
     for i, (c, r) in enumerate(zip(cases, real)):
         v = judge(c, r)
         if v:
             failing.append({"index": i, "case": c, "props": v})
-    traces = CS.run_traces([f["case"] for f in failing], tag) if failing else []
+    traces = CS.run_traces([f["case"] for f in failing], tag) if (failing and model) else [[] for _ in failing]
     for f, t in zip(failing, traces):
         f["keys"] = finding_keys(t)
         if f["case"].get("kind") == "alias-target" and not f["keys"]:
@@ -270,13 +270,14 @@ def check_property(chk, prop, streams, extra_gen=()):
         if ok and p.returncode == 0:
             proved, f2 = V.prove(chk, prop, [kn] + [os.path.join(V.GEN, g) for g in extra_gen])
             fails += f2
+            if not proved:
+                try:
+                    chk.extra["missing_handlers"] = [{"class": c, "attribute": f, "unions": us} for c, f, us in disp_explain()][:40]
+                except Exception as e:  # best effort
+                    chk.extra["missing_handlers_explain_failed"] = str(e)[-300:]
         elif p.returncode != 0:
             fails.append(("translator", "x_known", (p.stdout + p.stderr)[-800:]))
-        if not ok:
-            # the package cannot even be translated: look for a failing input directly on the real code
-            chk.violation({"property": prop, "kind": "obligation no longer checks", "broken": [{"what": a, "name": b, "detail": c} for a, b, c in fails]}, no_input=True)
-            return
-        pkg = json.load(open(os.path.join(V.GEN, "pkg.json")))
+        pkg = CS.load_pkg(mmv) if ok else dict(CS.load_pkg(mmv), fallback=True)
         cases = []
         if "site" in streams:
             cases += site_stream(mmv, pkg)
@@ -287,7 +288,7 @@ def check_property(chk, prop, streams, extra_gen=()):
         if "rand" in streams:
             n = 1 if chk.tier == "quick" else 12
             cases += rand_cases(mmv, pkg, rng, n, n)
-        verdict, real, failing = run_stream(chk, cases, prop)
+        verdict, real, failing = run_stream(chk, cases, prop, model=ok)
     dist = {}
     for c in cases:
         dist[c["kind"]] = dist.get(c["kind"], 0) + 1
@@ -331,11 +332,26 @@ def check_property(chk, prop, streams, extra_gen=()):
         f, mine, keys = unknown[0]
         chk.violation({"property": prop, "kind": "real converter violates the property on a metamodel-valid input",
                        "input": {"target": f["case"]["target"], "json": f["case"]["input"], "site": f["case"].get("site")}, "what": mine,
+                       "missing_handlers": chk.extra.get("missing_handlers"),
                        "dispatch_trace_keys": keys, "others": [{"site": u[0]["case"].get("site"), "what": u[1][0][:120]} for u in unknown[1:15]],
                        "broken": [x[:2] for x in fails]})
     elif fails:
         chk.violation({"property": prop, "kind": "obligation no longer checks", "broken": [{"what": a, "name": b, "detail": c} for a, b, c in fails],
+                       "missing_handlers": chk.extra.get("missing_handlers"),
                        "searched": "%d metamodel-valid inputs (distribution %s) on the real converter: no unlisted failure" % (len(cases), dist)}, no_input=True)
+
+
+def disp_explain():
+    """fields whose type meets a union without handler: [(class, attribute, [union strings])] (model side, vm_compute)"""
+    import re
+    pkg = json.load(open(os.path.join(V.GEN, "pkg.json")))
+    outs = V.coq_eval("ExplainDisp", "From LSP Require Import Base Sem Disp Trace.\nFrom Gen Require Import PkgData.\n",
+                      ["map (fun x => (fst (fst x), snd (fst x), map (fun t => index_of t union_table) (snd x))) (fields_missing Sg)"])
+    res = []
+    for c, f, idx in re.findall(r'\(\s*"([^"]*)"\s*,\s*"([^"]*)"\s*,\s*\[([^\]]*)\]\s*\)', outs[0]):
+        us = [pkg["unions"][int(i)] if int(i) < len(pkg["unions"]) else "<not in table>" for i in re.findall(r"\d+", idx)]
+        res.append((c, f, us))
+    return res
 
 
 def confirm_witness(prop, o):
